@@ -43,11 +43,11 @@ MUST_REACH = ANCHORS
 FLOORS = {'quick': {'nontrivial': 1500, 'monitors': {'M.outcome': 6000, 'T.trace': 6000},
                     'counters': {'fault-fired:write-fail': 400, 'fault-fired:rename-veto': 40, 'fault-fired:close-fail': 40,
                                  'fault-fired:open-fail': 40, 'fault-fired:failpoint': 2000, 'fault-fired:corrupt-patch': 20,
-                                 'fault-fired:trunc-patch': 20, 'converged-by-chain>=2': 40, 'alg:sha256': 1000, 'alg:sha1': 1000}},
+                                 'fault-fired:trunc-patch': 20, 'fault-fired:inconsistent-patch': 20, 'converged-by-chain>=2': 25, 'alg:sha256': 1000, 'alg:sha1': 1000}},
           'thorough': {'nontrivial': 60000, 'monitors': {'M.outcome': 250000, 'T.trace': 250000},
                        'counters': {'fault-fired:write-fail': 20000, 'fault-fired:rename-veto': 1500, 'fault-fired:close-fail': 1500,
                                     'fault-fired:open-fail': 1500, 'fault-fired:failpoint': 80000, 'fault-fired:corrupt-patch': 800,
-                                    'fault-fired:trunc-patch': 800, 'converged-by-chain>=2': 1500, 'alg:sha256': 40000,
+                                    'fault-fired:trunc-patch': 800, 'fault-fired:inconsistent-patch': 800, 'converged-by-chain>=2': 1500, 'alg:sha256': 40000,
                                     'alg:sha1': 40000}}}
 LEVEL_TEXT = ('Runtime monitoring with fault enumeration: for every generated (history, local state) the call is repeated once per '
               'fault position - every write index, every executed source line of the four functions, every patch of the chain - '
@@ -123,6 +123,7 @@ def cases(ctx):
                       # every executed line for the first histories of a shard, every 5th line (rotating phase) for the rest
                       {'kind': 'failpoint', 'n': 'all', 'stride': 1 if hno < 2 else 5, 'phase': r.randrange(5)}]
             for j in range(n):
+                faults.append({'kind': 'inconsistent-patch', 'j': j})
                 faults.append({'kind': 'corrupt-patch', 'j': j})
                 faults.append({'kind': 'trunc-patch', 'j': j})
                 if r.random() < .4:
@@ -150,6 +151,9 @@ def publish(root, vs, alg, fault):
         script = edscript.make_ed_script(vs[i], vs[i + 1])
         if edscript.apply_ed_script(vs[i], script) != vs[i + 1]:
             raise RuntimeError('harness: ed script deriver is wrong')
+        if fault['kind'] == 'inconsistent-patch' and fault['j'] == i:
+            # a well-formed patch whose own hash is recorded correctly but which does not produce v_{i+1}
+            script = ['0a\n', 'X-Injected: inconsistent\n', '.\n']
         sb = ''.join(script).encode('utf-8')
         with gzip.open(os.path.join(root, 'Packages.diff', name + '.gz'), 'wb') as f:
             f.write(sb)
@@ -194,6 +198,10 @@ def publish(root, vs, alg, fault):
 # ---------------------------------------------------------------------------
 # fault injection at the I/O boundary
 
+class InjectedFault(Exception):
+    """A failure that is not an OSError (writes can also fail with ValueError, UnicodeEncodeError, MemoryError...)."""
+
+
 class _FaultyFile(object):
     def __init__(self, f, state):
         self._f, self._s = f, state
@@ -203,6 +211,8 @@ class _FaultyFile(object):
         s['writes'] += 1
         if s.get('fail_write') == s['writes']:
             s['fired'] = True
+            if s['writes'] % 3 == 2:
+                raise UnicodeEncodeError('utf-8', 'x', 0, 1, 'surrogates not allowed (injected)')
             raise OSError(28, 'No space left on device (injected)')
         return self._f.write(x)
 
@@ -247,6 +257,20 @@ def setup(ctx):
     from .. import probes
     _AUDIT[0] = probes.AuditLog(names=('open', 'os.rename', 'os.remove', 'urllib.Request'))
     ctx.extra['failpoint_sites'] = set()
+
+
+def _chain_result_with_inconsistent_patch(vs, i0, j):
+    """What the patch chain from v_{i0} yields when patch j is the injected inconsistent one (later patches can
+    wipe the damage, e.g. when they delete everything); None if that cannot be predicted."""
+    lines = list(vs[i0])
+    try:
+        for i in range(i0, len(vs) - 1):
+            script = ['0a\n', 'X-Injected: inconsistent\n', '.\n'] if i == j else edscript.make_ed_script(vs[i], vs[i + 1])
+            for first, last, text in edscript.to_patches(edscript.parse_ed_script(script)):
+                lines[first:last] = text
+    except Exception:
+        return None
+    return lines
 
 
 def _expected_chain(vs, start_lines):
@@ -356,7 +380,8 @@ def _one(ctx, case, d, count_only=False):
                      ('update_file', 'replace_file', 'download_file', 'download_gunzip_lines')]
             fp = probes.Failpoint(codes)
             fp.start()
-            fp.arm(fault['n'] if fault['n'] else None, OSError(5, 'injected at failpoint'))
+            exc = OSError(5, 'injected at failpoint') if (fault['n'] or 0) % 2 else InjectedFault('injected at failpoint')
+            fp.arm(fault['n'] if fault['n'] else None, exc)
         import tempfile
         old_tmp = tempfile.tempdir
         tempfile.tempdir = os.path.join(d, 'tmp')       # temp files of the call live (and die) with the case dir
@@ -383,8 +408,11 @@ def _one(ctx, case, d, count_only=False):
         if count_only:
             return fp.seen
         fired = state['fired'] or veto['fired'] or (fp is not None and fp.fired_at is not None)
-        if kind in ('corrupt-patch', 'trunc-patch', 'missing-patch'):
+        if kind in ('corrupt-patch', 'trunc-patch', 'missing-patch', 'inconsistent-patch'):
             fired = uses_chain and chain_from <= fault['j']
+            if fired and kind == 'inconsistent-patch' and \
+                    _chain_result_with_inconsistent_patch(vs, chain_from, fault['j']) in (None, vs[-1]):
+                fired = False       # later patches wipe the damage: the result legitimately matches the index
         elif kind == 'full-missing':
             fired = needs_write and not uses_chain
         elif kind in ('no-index', 'bad-index', 'incomplete-index'):
@@ -402,7 +430,7 @@ def _one(ctx, case, d, count_only=False):
         tag = '%s/%s' % (('vi' if start.startswith('v') else start), kind)
         if os.path.exists(local + '.new'):
             ctx.violation('temporary-file-left-behind', '%s: %s.new exists after the call (err=%r)' % (tag, local, err), case)
-        must_fail = fired and kind in ('corrupt-patch', 'trunc-patch', 'missing-patch', 'write-fail', 'close-fail', 'open-fail',
+        must_fail = fired and kind in ('corrupt-patch', 'trunc-patch', 'missing-patch', 'inconsistent-patch', 'write-fail', 'close-fail', 'open-fail',
                                        'rename-veto', 'full-missing')
         safety_only = kind in ('incomplete-index', 'failpoint') and fired
         if err is None:
